@@ -136,7 +136,8 @@ def run_case(case):
            "preshift_ge_1_with_shared_minishard": int(cfg["preshift_bits"] >= 1 and shared),
            "more_than_64_shards": int(cfg["shard_bits"] >= 7 and len(subset) > 200),
            "minishard_data_over_1MiB": int(cfg["chunk"] >= 64 and len(subset) >= 5),
-           "identifiers_ge_2_32": int(max(shardlib.cmc_of(cfg, p) for p in subset) >= 2 ** 32)}
+           "identifiers_ge_2_32": int(max(shardlib.cmc_of(cfg, p) for p in subset) >= 2 ** 32),
+           "identifiers_gt_2_53": int(max(shardlib.cmc_of(cfg, p) for p in subset) > 2 ** 53)}
     ctx = (f"grid {cfg['grid']} chunk {cfg['chunk']} bits(m,s,p)=({cfg['minishard_bits']},"
            f"{cfg['shard_bits']},{cfg['preshift_bits']}) enc(index,data)=("
            f"{cfg['minishard_index_encoding']},{cfg['data_encoding']}) {case['encoding']} "
@@ -322,6 +323,7 @@ def gates(obs, tier):
         "bytearray_payloads": obs.get("bytearray_payloads", 0) > 0,
         "preshift_with_shared_minishard": obs.get("preshift_ge_1_with_shared_minishard", 0) > 0,
         "identifiers_beyond_2_32": obs.get("identifiers_ge_2_32", 0) > 0,
+        "identifiers_beyond_2_53": obs.get("identifiers_gt_2_53", 0) > 0,
         "more_than_64_shards_in_a_scale": obs.get("more_than_64_shards", 0) > 0,
         "megabyte_minishards": obs.get("minishard_data_over_1MiB", 0) > 0,
         "resubmitted_chunks_refused_and_accepted": obs.get("resubmissions_refused", 0) > 10
